@@ -563,7 +563,9 @@ pub fn check(tier: Tier) -> i32 {
         states_generated += res.states_generated;
         ctxs.extend(res.ctxs);
     }
-    let st = selftest(&fxs[0][0]);
+    // the self-test runs the library too: on a tree that panics there it counts as failed (a verdict, if there is one,
+    // takes precedence over it)
+    let st = catch(|| selftest(&fxs[0][0])).unwrap_or((1, 0));
     let agg = merge(ctxs);
     finish(
         RunInfo {
